@@ -814,6 +814,10 @@ func (a *analyzer) closure(c *fnCtx, st *state, lit *ast.FuncLit, kind string) {
 		}
 	}
 	inner := &state{}
+	if kind == "go" {
+		// recorded so that Coq can check that a spawned context claims no entry locks
+		a.calls = append(a.calls, callSite{Callee: name, Caller: c.decl.Name, Spawn: true, Dbg: a.dbg(lit.Pos())})
+	}
 	if kind == "defer" {
 		// a deferred closure runs before the unlocks that were deferred earlier
 		for _, h := range st.held {
